@@ -106,7 +106,7 @@ pub fn sched_run(cfg: &MmCfg, dir: &str, rng: &mut Rng, schedule: &[(u64, String
     let (k, threads, delim, header) = (cfg.k, cfg.threads, cfg.delim.clone(), cfg.header);
     let (inp2, out2) = (inp.clone(), out.clone());
     let handle = std::thread::spawn(move || run_oligo(&inp2, &out2, k, true, WPath::Mmap, threads, &delim, header, None));
-    let to = Duration::from_secs(20);
+    let to = Duration::from_secs(8);
     let mut fail: Option<String> = None;
     // all workers arrive at worker_start; start them one by one (in arrival order) up to their first before_take
     match rec.wait_quiescent(threads, to) {
@@ -155,7 +155,7 @@ pub fn sched_run(cfg: &MmCfg, dir: &str, rng: &mut Rng, schedule: &[(u64, String
             }
             rec.grant(tid);
             if rec.wait_quiescent(threads, to).is_none() {
-                fail = Some("granted worker did not come back".into());
+                fail = Some("VANISHED: granted worker neither reached a schedule point nor exited".into());
                 break;
             }
         }
@@ -164,6 +164,13 @@ pub fn sched_run(cfg: &MmCfg, dir: &str, rng: &mut Rng, schedule: &[(u64, String
     let res = handle.join();
     Recorder::uninstall();
     if let Some(f) = fail {
+        if f.starts_with("VANISHED") {
+            // a worker left the loop by a path the hooks (and the specification) do not know: that is data
+            let mut evs = vec![reset_event(cfg, "sched")];
+            evs.extend(rec.take_log().iter().map(ev_json));
+            evs.push(json!({"ev":"crash","kind":"vanished","what":f}));
+            return Ok(evs);
+        }
         return Err(f);
     }
     let mut evs = vec![reset_event(cfg, "sched")];
@@ -191,14 +198,22 @@ pub fn replay(schedfile: &str, n: usize, w: usize, dir: &str, seed: u64, stride:
         let schedule: Vec<(u64, String)> = v.as_array().unwrap().iter().map(|s| (s[0].as_u64().unwrap(), s[1].as_str().unwrap().to_string())).collect();
         match sched_run(&cfg, dir, &mut rng, &schedule) {
             Ok(evs) => {
+                let vanished = evs.last().map(|e| e["kind"] == "vanished").unwrap_or(false);
                 for e in evs {
                     println!("{}", e);
                 }
                 done += 1;
+                if vanished {
+                    // one such run is enough to reject the trace; do not wait through many more time-outs
+                    break;
+                }
             }
             Err(why) => {
                 unreplayable += 1;
                 eprintln!("unreplayable schedule {}: {}", i, why);
+                if unreplayable >= 25 {
+                    break;
+                }
             }
         }
     }
@@ -217,7 +232,8 @@ pub fn free(seed: u64, runs: usize, dir: &str, maxn: usize) {
         let cfg = MmCfg {
             n,
             k: 1 + (i % 3),
-            delim: (*rng.pick(&["", " ", ",", "\t", "::", " | "])).to_string(),
+            // any string is a delimiter for the library: empty, ASCII of 1..3 bytes, and non-ASCII (bytes != chars)
+            delim: (*rng.pick(&["", " ", ",", "\t", "::", " | ", "\u{b7}", "\u{2192}", "a\u{e9}"])).to_string(),
             header: rng.chance(1, 2),
             threads: 1 + rng.below(16) as usize,
         };
